@@ -2,8 +2,6 @@ package main
 
 import (
 	"bytes"
-	"fmt"
-	"os"
 
 	"verifharness/memdb"
 
@@ -76,7 +74,9 @@ func (w *World) serializeFull(bl *block.Block, txs []*transaction.Transaction) [
 	var out []byte
 	err := db.Update(func(txn adb.Txn) error {
 		for _, t := range txs {
-			if err := w.bc.SetTx(txn, t, t.Hash(), 0); err != nil {
+			// filed under the block's height: with height 0 GetTx would try both transaction formats and could read a
+			// deliberately malformed transaction back as a different, shorter one
+			if err := w.bc.SetTx(txn, t, t.Hash(), bl.Height); err != nil {
 				return err
 			}
 		}
@@ -86,12 +86,6 @@ func (w *World) serializeFull(bl *block.Block, txs []*transaction.Transaction) [
 	})
 	w.bc.DB = save
 	if err == nil && !bytes.Equal(out, mine) {
-		for i, t := range txs {
-			t2 := &transaction.Transaction{}
-			e := t2.Deserialize(t.Serialize(), bl.Height >= config.HARDFORK_V2_HEIGHT)
-			fmt.Fprintf(os.Stderr, "tx %d v=%d %T ser=%x\n   redecode err=%v reser=%x\n", i, t.Version, t.Data, t.Serialize(), e, func() []byte { if e != nil { return nil }; return t2.Serialize() }())
-		}
-		fmt.Fprintf(os.Stderr, "mine=%x\nrepo=%x\n", mine, out)
 		panic("harness wire form differs from SerializeFullBlock")
 	}
 	return mine
